@@ -167,3 +167,7 @@ impl<T: CancelIo> CancelImpl<T> {
 }
 
 pub type Cancel = CancelImpl<CancelIoImpl>;
+
+#[cfg(kani)]
+#[path = "/verif/harness/may/cancel.rs"]
+mod verif_kani;
